@@ -119,6 +119,27 @@ enum Param {
     CommitCombo { timeout_s: Option<u64>, persist: Option<String> },
     JunosCommitCombo { check: bool, confirm_s: Option<u64>, log: Option<String>, sync: Option<bool> },
     EditConfigCombo { candidate: bool, fragment: Option<String>, url: Option<String>, defop: usize, errop: usize, testop: usize },
+    /// a caller-supplied payload type whose write_xml fails after having written `written` elements:
+    /// the call must fail, nothing may be sent, and nothing may be left behind for later messages
+    FailingPayload { written: usize },
+}
+
+/// A configuration payload produced from a fallible source.
+#[derive(Debug)]
+struct Flaky {
+    written: usize,
+}
+
+impl netconf::message::WriteXml for Flaky {
+    fn write_xml<W: std::io::Write>(&self, writer: &mut quick_xml::Writer<W>) -> Result<(), netconf::message::WriteError> {
+        _ = writer.create_element("configuration").write_inner_content(|w| {
+            for i in 0..self.written {
+                _ = w.create_element(format!("item{i}").as_str()).write_empty()?;
+            }
+            Err::<(), netconf::message::WriteError>(netconf::message::WriteError::Other("the payload source gave out".into()))
+        })?;
+        Ok(())
+    }
 }
 
 const DEFOPS: [&str; 3] = ["merge", "replace", "none"];
@@ -149,12 +170,14 @@ impl Param {
             Self::CommitCombo { .. } => "commit/combination",
             Self::JunosCommitCombo { .. } => "commit-configuration/combination",
             Self::EditConfigCombo { .. } => "edit-config/combination",
+            Self::FailingPayload { .. } => "edit-config/failing-payload",
         }
     }
 }
 
 fn gen_param(ctx: &mut Ctx) -> Param {
-    match ctx.pick(22) {
+    match ctx.pick(23) {
+        22 => Param::FailingPayload { written: ctx.pick(4) },
         19 => Param::CommitCombo {
             timeout_s: match ctx.pick(4) {
                 0 => None,
@@ -252,6 +275,7 @@ async fn issue(s: &mut Session<SimTransport>, p: &Param) -> Result<(), Error> {
         Param::LoadSet(v) => s.rpc::<LoadConfiguration<_>, _>(|b| b.source(Config::new(v, Text, Set)).finish()).await.map(drop),
         Param::LoadJson(v) => s.rpc::<LoadConfiguration<_>, _>(|b| b.source(Config::new(v, Json, Merge)).finish()).await.map(drop),
         Param::LoadXmlFragment(v) => s.rpc::<LoadConfiguration<_>, _>(|b| b.source(Config::new(Opaque::from(v), Xml, Merge)).finish()).await.map(drop),
+        Param::FailingPayload { written } => s.rpc::<EditConfig<Flaky>, _>(|b| b.target(Datastore::Candidate)?.config(Flaky { written }).finish()).await.map(drop),
         Param::CommitCombo { timeout_s, persist } => s
             .rpc::<Commit, _>(|b| {
                 let mut b = b.confirmed(true)?;
@@ -350,6 +374,7 @@ fn read_back(rpc: &Elem, p: &Param) -> Result<(), String> {
         Param::LoadSet(v) => eq(text_of(op.child("configuration-set"), "configuration-set")?, v),
         Param::LoadJson(v) => eq(text_of(op.child("configuration-json"), "configuration-json")?, v),
         Param::LoadXmlFragment(v) => fragment_equal(op, v),
+        Param::FailingPayload { .. } => Err("a request whose payload could not be serialised was sent".into()),
         Param::CommitCombo { timeout_s, persist } => {
             if op.child("confirmed").is_none() {
                 return Err("<confirmed> missing".into());
@@ -520,7 +545,7 @@ pub static C10: PropSpec = PropSpec {
     runs: |t| if t == Tier::Thorough { 10_000_000 } else { 200_000 },
     enumerated: |_| 0,
     run,
-    rule: "one run in 1500: 2-4 pipelined requests over the real TLS / SSH / local transport of which the first carries a 70-260 KiB subtree filter (larger than a pipe or socket buffer accepts at once); the scripted peer frames by the delimiter and must see every request exactly once, well-formed, the large value complete. Otherwise: 1-3 requests per session, each exercising one text-valued or fragment-valued parameter of one operation (19 parameter sites), or several parameters of one operation at once (commit: confirm-timeout x persist token; commit-configuration: check x confirmed[-timeout] x log x synchronize; edit-config: target x config|url x default-operation x error-option x test-option), every one of which must be read back; text values are concatenations of pieces from an adversarial alphabet (XML metacharacters, quotes, ']]>', the delimiter itself, entity look-alikes, comment/CDATA/PI openers, non-ASCII, empty); fragments come from a well-formed fragment generator (namespaces, attributes, nested elements, rewrite styles) and never contain the delimiter. The server frames by delimiter and parses with the harness's strict parser. Non-trivial = at least one request was sent; distinct = distinct event-log hash (includes the parameter values)",
+    rule: "one run in 1500: 2-4 pipelined requests over the real TLS / SSH / local transport of which the first carries a 70-260 KiB subtree filter (larger than a pipe or socket buffer accepts at once); the scripted peer frames by the delimiter and must see every request exactly once, well-formed, the large value complete. Otherwise: 1-3 requests per session, each exercising one text-valued or fragment-valued parameter of one operation (19 parameter sites), or several parameters of one operation at once (commit: confirm-timeout x persist token; commit-configuration: check x confirmed[-timeout] x log x synchronize; edit-config: target x config|url x default-operation x error-option x test-option), every one of which must be read back; or a caller-supplied payload whose serialisation fails half-way (the call must fail, nothing may be sent and later messages must be unaffected); text values are concatenations of pieces from an adversarial alphabet (XML metacharacters, quotes, ']]>', the delimiter itself, entity look-alikes, comment/CDATA/PI openers, non-ASCII, empty); fragments come from a well-formed fragment generator (namespaces, attributes, nested elements, rewrite styles) and never contain the delimiter. The server frames by delimiter and parses with the harness's strict parser. Non-trivial = at least one request was sent; distinct = distinct event-log hash (includes the parameter values)",
     components: &[("netconf session + request serialisers (message/**)", "real"), ("transport", "stub: in-memory; one run in 1500: the real TLS / SSH / local transports (send side under back-pressure) against the scripted R-sim peer"), ("NETCONF server", "model: frames by ]]>]]>, strict XML parser, reads values back")],
     assumptions: &[
         "decided by generated parameter values; schedule fixed",
